@@ -13,7 +13,10 @@ Grams(w) ==
   \cup { <<w[i], w[i + 1], w[i + 2]>> : i \in 1..(n - 2) }
 
 \* a tokenised text is a record [chars, words, ...]; word slices are 0-based, end exclusive
-WordChars(tok, i) == SubSeq(tok.chars, tok.words[i].s + 1, tok.words[i].e)
+\* (empty when the recorded bounds do not fit the array: a malformed recorded tokenisation is C15's finding and must not
+\*  make an operator fail)
+WordChars(tok, i) == IF tok.words[i].s >= 0 /\ tok.words[i].s <= tok.words[i].e /\ tok.words[i].e <= Len(tok.chars)
+                       THEN SubSeq(tok.chars, tok.words[i].s + 1, tok.words[i].e) ELSE <<>>
 TextWords(tok)    == [i \in 1..Len(tok.words) |-> WordChars(tok, i)]
 GramSet(tok)      == UNION { Grams(WordChars(tok, i)) : i \in 1..Len(tok.words) }
 
